@@ -191,7 +191,35 @@ GET_RAW = [
 ]
 
 
+def shard_get_empty(st, wd):
+    """A document without any node: nothing can match, so every query ends
+    with a non-zero status and prints nothing - from a file and from standard
+    input alike."""
+    for text in ("", "---\n", "# only a comment\n", "--- ~\n"):
+        fname = os.path.join(wd, "empty.yaml")
+        cli.write(fname, text)
+        for query in ("/a", "a.b", "/*", "**", "/[0]"):
+            outs = []
+            for delivery in ("file", "dash"):
+                if delivery == "file":
+                    res = cli.run("yaml-get", ["--query=" + query, fname])
+                else:
+                    res = cli.run("yaml-get", ["--query=" + query, "-"],
+                                  stdin=text)
+                case = {"tool": "yaml-get", "doc": text,
+                        "argv": ["--query=" + query], "delivery": delivery}
+                note(st, "yaml-get", res, ("empty", delivery), query)
+                if crashed(st, "yaml-get", res, case):
+                    continue
+                outs.append((res.code != 0, res.out))
+                if res.code == 0 or res.out.strip():
+                    st.fail("yaml-get|empty-document", case,
+                            "non-zero exit, no output",
+                            "%s %r" % (res.code, res.out[:80]))
+
+
 def shard_get_raw(st, wd):
+    shard_get_empty(st, wd)
     for text, queries in GET_RAW:
         fname = os.path.join(wd, "raw.yaml")
         cli.write(fname, text)
